@@ -1248,8 +1248,8 @@ Qed.
 Lemma step_no_panic c : Inv tb opts toks c -> stream_named (c_stream c) ->
   match ll_step orc tb opts c with
   | Return (Panic _) => False
-  | Continue c' | Break c' => stream_named (c_stream c')
-  | Return _ => True
+  | Continue c' => stream_named (c_stream c')
+  | _ => True
   end.
 Proof.
   intros (fs & Hne & Hw & Hst & Hpts & Hev & Hd & Hcl) Hnm.
@@ -1277,25 +1277,25 @@ Proof.
       assert (Hso : sym_ok tb (T t) = true) by (eapply (pending_sym_ok _ _ _ [] pend (T t) Hp); exact Hr).
       cbn [sym_ok] in Hso. apply andb_prop in Hso as [_ Hso]. rewrite Hso. cbn [negb].
       rewrite Hst. rewrite (diag_ok _ _ (T t :: pend) _ Hp).
-      destruct Hnm1 as [H1 H2]. rewrite Eb in H1. inversion H1 as [|? ? Htok Hb]; subst.
+      pose proof Hnm1 as [H1 H2]. rewrite Eb in H1. inversion H1 as [|? ? Htok Hb]; subst.
       apply N.ltb_lt in Htok. rewrite Htok. cbn [negb].
-      destruct (snd (add_error _ _)); [cbn [set_errs c_stream]; rewrite Eb; split; assumption|].
-      destruct (o_recovery opts) eqn:Er in |- *; cbn [negb]; [|cbn [set_errs c_stream]; rewrite Eb; split; assumption].
+      destruct (snd (add_error _ _)); [exact I|].
+      destruct (o_recovery opts) eqn:Er in |- *; cbn [negb]; [|exact I].
       pose proof Hrec as Hrec'; destruct Hrec' as [Hr'|[Hla [Ho1 Ho2]]]; [congruence|].
-      cbn [set_errs c_stream].
+      cbn [set_errs set_stream c_stream].
       rewrite (ensure_id tb (ensure tb (c_stream c))) by apply ensure_length. rewrite Eb.
-      destruct (Ho2 (tok :: b) (expected_token_types (PT t :: map item_of pend ++ PE p :: stack_of outer)) H1)
+      destruct (Ho2 (tok :: b) (expected_token_types (map item_of (T t :: pend) ++ PE p :: stack_of outer)) H1)
         as [Hnp Hadj].
       { apply expected_named. exact Hstk_named. }
       destruct (o_adjust orc _ _) as [b'| |] eqn:Eadj; [| |congruence].
       * cbn [set_stream c_stream set_buf s_buf s_rest]. split; [apply Hadj; reflexivity|exact H2].
-      * cbn [set_stream c_stream]. rewrite <- Eb. split; [rewrite Eb; exact H1|exact H2].
+      * exact I.
   - assert (Hso : sym_ok tb (NT a) = true) by (eapply (pending_sym_ok _ _ _ [] pend (NT a) Hp); exact Hr).
     cbn [sym_ok] in Hso. apply andb_prop in Hso as [Ha1 Ha2]. apply Nat.ltb_lt in Ha1. apply N.ltb_lt in Ha2.
     destruct (dfa_at tb a) as [d|] eqn:Ed; [|unfold dfa_at in Ed; apply nth_error_None in Ed; lia].
     pose proof (dfa_at_ok tb Hok _ _ Ed) as Hdok.
     destruct (predict tb d (c_stream c)) as [[q| |e] s1] eqn:Ep.
-    + destruct (predict_ok_spec tb Hok _ _ _ _ _ Hdok Ep) as [(prq & Hq & Hlq) _].
+    + destruct (predict_ok_spec tb _ _ _ _ _ Hdok Ep) as [(prq & Hq & Hlq) _].
       destruct (push_production tb opts _ q) as [c'|c'|r] eqn:Epp.
       * rewrite (push_production_stream _ _ _ Epp). cbn [set_stack set_stream c_stream].
         eapply predict_named; eassumption.
@@ -1307,18 +1307,96 @@ Proof.
       cbn [set_stream c_stack] in Hh. specialize (Hh (or_intror (conj Hst Hp))).
       destruct (handle_prediction_error orc tb opts (set_stream c s1) a d) as [q c1|r n c1|site] eqn:Eh.
       * pose proof Eh as Eh'. apply hpe_ok in Eh' as (_ & _ & _ & _ & _ & _ & s & Hs).
-        destruct (predict_ok_spec tb Hok _ _ _ _ _ Hdok Hs) as [(prq & Hq & Hlq) _].
+        destruct (predict_ok_spec tb _ _ _ _ _ Hdok Hs) as [(prq & Hq & Hlq) _].
         destruct (push_production tb opts _ q) as [c'|c'|r] eqn:Epp.
         -- rewrite (push_production_stream _ _ _ Epp). exact Hh.
         -- exfalso. eapply push_production_not_break; exact Epp.
         -- destruct r; try exact I. eapply push_production_no_panic; eassumption.
-      * unfold handle_prediction_error in Eh. clear Hh.
-        assert (Hs1 : stream_named s1) by (eapply predict_named; eassumption).
-        break_matches Eh; inversion Eh; subst; cbn [set_stream set_errs c_stream];
-          try exact Hs1; try (apply ensure_named; exact Hs1).
-        all: try (eapply predict_named; [|eassumption]).
-        all: idtac.
+      * exact I.
       * exact Hh.
+Qed.
+
+Lemma finish_no_panic c site : ll_finish c = Panic site -> False.
+Proof. unfold ll_finish. intros H. break_matches H; discriminate. Qed.
+
+Lemma loop_no_panic fuel : forall c site,
+  Inv tb opts toks c \/ Fin tb opts toks c -> stream_named (c_stream c) ->
+  ll_loop orc tb opts fuel c = Panic site -> False.
+Proof.
+  induction fuel as [|fuel IH]; intros c site HI Hnm H; [discriminate|].
+  cbn [ll_loop] in H. destruct HI as [HI|HF].
+  - rewrite (Inv_not_accepted _ _ _ _ HI) in H.
+    pose proof (step_no_panic c HI Hnm) as Hs.
+    destruct (ll_step orc tb opts c) as [c'|c'|r] eqn:Es.
+    + eapply IH; [|exact Hs|exact H]. eapply step_inv; eassumption.
+    + eapply finish_no_panic; exact H.
+    + subst r. exact Hs.
+  - destruct HF as (t & Hst & HF). rewrite Hst in H. cbn [input_accepted] in H.
+    eapply finish_no_panic; exact H.
+Qed.
+
+Lemma start_named : (tb_start tb < tb_nnts tb)%N.
+Proof.
+  pose proof Hok as H. unfold tables_ok_basic in H. repeat (apply andb_prop in H as [H ?]).
+  match goal with Hf : (tb_start tb <? tb_nnts tb)%N = true |- _ => apply N.ltb_lt in Hf; exact Hf end.
+Qed.
+
+Lemma init_no_panic s0 : stream_named s0 ->
+  match ll_init orc tb opts s0 with
+  | Return (Panic _) => False
+  | Continue c => stream_named (c_stream c)
+  | _ => True
+  end.
+Proof.
+  intros Hnm. unfold ll_init.
+  destruct (ok_start tb Hok) as (d & Ed). rewrite Ed.
+  pose proof (dfa_at_ok tb Hok _ _ Ed) as Hdok.
+  destruct (predict tb d s0) as [[q| |e] s1] eqn:Ep.
+  - destruct (predict_ok_spec tb _ _ _ _ _ Hdok Ep) as [(prq & Hq & Hlq) _].
+    destruct (push_production tb opts _ q) as [c'|c'|r] eqn:Epp.
+    + rewrite (push_production_stream _ _ _ Epp). cbn [set_stream c_stream].
+      eapply predict_named; eassumption.
+    + exact I.
+    + destruct r; try exact I. eapply push_production_no_panic; eassumption.
+  - eapply predict_no_cast; eassumption.
+  - match goal with |- context [handle_prediction_error orc tb opts ?c0 _ d] =>
+      pose proof (hpe_no_panic c0 (tb_start tb) d e s0 [] 0%N (mkProduction 0 [] false) []
+                    Ed start_named (predict_named _ _ _ _ Hnm Ep) Ep (or_introl eq_refl)) as Hh;
+      destruct (handle_prediction_error orc tb opts c0 (tb_start tb) d) as [q c1|r n c1|site] eqn:Eh
+    end.
+    + pose proof Eh as Eh'. apply hpe_ok in Eh' as (_ & _ & _ & _ & _ & _ & s & Hs).
+      destruct (predict_ok_spec tb _ _ _ _ _ Hdok Hs) as [(prq & Hq & Hlq) _].
+      destruct (push_production tb opts _ q) as [c'|c'|r] eqn:Epp.
+      * rewrite (push_production_stream _ _ _ Epp). exact Hh.
+      * exact I.
+      * destruct r; try exact I. eapply push_production_no_panic; eassumption.
+    + exact I.
+    + exact Hh.
+Qed.
+
+Lemma locate_named l : forallb (fun t => (t <? tb_nterms tb)%N) l = true ->
+  forall loc, named tb (locate l loc).
+Proof.
+  induction l as [|t l IH]; intros H loc; cbn [locate]; [constructor|].
+  cbn [forallb] in H. apply andb_prop in H as [H1 H2]. constructor; [apply N.ltb_lt; exact H1|].
+  apply IH. exact H2.
+Qed.
+
+Lemma run_with_no_panic fuel site :
+  forallb (fun t => (t <? tb_nterms tb)%N) toks = true ->
+  ll_run_with orc fuel tb opts toks = Panic site -> False.
+Proof.
+  intros Hn H. unfold ll_run_with in H. destruct (forallb significant toks); [|discriminate].
+  unfold ll_run_located in H.
+  assert (Hs0 : stream_named (init_stream tb (locate toks LOC_FIRST) LOC_END)).
+  { unfold init_stream. apply ensure_named. split; cbn [s_buf s_rest]; [constructor|].
+    apply locate_named. exact Hn. }
+  pose proof (init_no_panic _ Hs0) as Hi.
+  destruct (ll_init orc tb opts _) as [c|c|r] eqn:Ei.
+  - eapply loop_no_panic; [left|exact Hi|exact H].
+    eapply init_inv; [exact Hok| |exact Ei]. apply init_stream_ok.
+  - eapply finish_no_panic; exact H.
+  - subst r. exact Hi.
 Qed.
 
 End NoPanic.
